@@ -77,6 +77,7 @@ class Store:
         self.label = label
         Store._n += 1
         self.id = Store._n
+        self.dtype = None  # "int" | "float" | None (unknown): only schema inputs carry one; decides np.asarray(x, dtype=..) aliasing
 
 
 class NDArr:
@@ -178,6 +179,10 @@ class Obj:
         self.fields = {}
         Obj._n += 1
         self.serial = Obj._n
+        # partial: the object was put together by a schema / contract / harness and may not carry every attribute of a real
+        # instance: reading a missing attribute is then a limit of the model (Undecided), not an AttributeError of the code.
+        # Objects built by interpreting the class' own __init__ are complete (Interp.instantiate clears the flag).
+        self.partial = True
 
     def __repr__(self):
         return f"<Obj {self.cls.name} {list(self.fields)}>"
